@@ -12,7 +12,7 @@ def parseOpt (root : String) (j : Json) : Except String Opt := do
 
 def endsWith (s suffix : Str) : Bool := (s.drop (s.length - suffix.length)) == suffix
 
-def envAt (short : Bool) : Env := ⟨fun d => !endsWith d (lit "missing"), !short⟩
+def envAt (short : Bool) : Env := ⟨fun d => !endsWith d (lit "missing"), if short then 0 else 1000⟩
 
 def getRes (j : Json) (k : String) : Except String (Int × Int × Int × Int) := do
   let o ← getObj j k
@@ -41,13 +41,17 @@ def handle : Handler := fun j => do
     let dropped ← getBool obs "reactstodropped"
     let hasExisting ← getBool obs "hasexisting"
     let visible := getBoolD obs "visibleafterrefresh" true
-    let (_, tInot, tWatches, tGor) := target
-    -- the model's resources: one inotify instance, its reader goroutine and the cache's watch goroutine
+    let (tFds, tInot, tWatches, tGor) := target
+    let shortLast := shortage + 1 == hist.length
+    -- after the history the harness queries the cache (in manual mode after a shortage at the last
+    -- step it refreshes explicitly first), descriptors being available again
+    let afterQueries := if shortLast && !final.fields.auto then refresh (envAt false) final else query (envAt false) final
+    -- the model's resources: one inotify instance with its descriptors, its reader goroutine and the
+    -- cache's watch goroutine; and the model's answer to "same as a fresh cache"
     let agree := tInot == final.res.watchers && tWatches == final.res.watches &&
-      tGor == 2 * final.res.watchers
+      tGor == 2 * final.res.watchers && tFds == watcherCost * final.res.watchers && same == !afterQueries.stale
     -- does the final state see new Specs by itself? a live watcher or the nil-watcher rescans
     let modelActive := final.fields.auto
-    let shortLast := shortage + 1 == hist.length
     let judge : Option String :=
       if p then some "panic"
       else if !same then some "differs-from-fresh-cache"
@@ -63,6 +67,9 @@ def handle : Handler := fun j => do
       (Json.mkObj [("watchers", final.res.watchers), ("watches", final.res.watches), ("auto", final.fields.auto)])
       ([s!"len{min hist.length 8}", s!"auto-{final.fields.auto}", s!"watches{final.res.watches}"] ++
        (if shortage ≥ 0 then [if shortLast then "descriptor-shortage-at-last-step" else "descriptor-shortage-midway"] else []) ++
+       (if final.stale then ["scan-failed-in-shortage"] else []) ++
+       (if shortLast && final.watcherLive then ["watcher-reused-released-descriptors"] else []) ++
+       (if shortLast && final.fields.auto && !final.watcherLive then ["nil-watcher"] else []) ++
        (if hist.length ≥ 100 then ["long-history"] else [])))
   | "default" =>
     let same ← getBool obs "sameasfresh"
